@@ -3,6 +3,7 @@
 package bundlekit
 
 import (
+	"bytes"
 	"fmt"
 	"net/url"
 	"strings"
@@ -11,6 +12,7 @@ import (
 	"github.com/WICG/webpackage/go/bundle/version"
 	"github.com/WICG/webpackage/go/signedexchange/certurl"
 	"github.com/WICG/webpackage/go/verifh/gen"
+	"github.com/WICG/webpackage/go/verifh/ref/refbundle"
 	"pgregory.net/rapid"
 )
 
@@ -534,3 +536,53 @@ func addVariantGroup(t *rapid.T, s *Spec, id int, seen map[string]bool) {
 		s.Exchanges = append(s.Exchanges, e)
 	}
 }
+
+// AlignTo pads the body of one exchange so that a chosen length of the WRITTEN file (the
+// responses section, the index + responses sections, or the whole file) lands exactly on, one
+// below or one above a multiple of mod. The file is written and measured with the independent
+// parser to calibrate (a few rounds: a longer body can widen a CBOR head); the resulting spec is
+// an ordinary spec and is what the case stores. Implementations copy sections in pieces of
+// 4 KiB, 32 KiB, 64 KiB: "ends exactly at a piece boundary" is where such loops go wrong.
+func AlignTo(s *Spec, target string, mod, off int) bool {
+	if must, _ := s.WriteMustFail(); must || len(s.Exchanges) == 0 {
+		return false
+	}
+	measure := func() (int, bool) {
+		var buf bytes.Buffer
+		if _, err := Build(s).WriteTo(&buf); err != nil {
+			return 0, false
+		}
+		p, err := refbundle.Strict(buf.Bytes())
+		if err != nil {
+			return 0, false
+		}
+		n := 0
+		for _, sec := range p.Sections {
+			if target == "file" || sec.Name == "responses" || (target == "index+responses" && sec.Name == "index") {
+				n += int(sec.Length)
+			}
+		}
+		if target == "file" {
+			n = buf.Len()
+		}
+		return n, true
+	}
+	e := &s.Exchanges[len(s.Exchanges)-1]
+	for round := 0; round < 5; round++ {
+		n, ok := measure()
+		if !ok {
+			return false
+		}
+		k := (n - off + mod - 1) / mod
+		if k < 1 {
+			k = 1
+		}
+		want := k*mod + off
+		if want == n {
+			return true
+		}
+		e.BodyLen += want - n
+	}
+	return false
+}
+
